@@ -573,3 +573,18 @@ fire("c12-nontrainable-overrides-recursive-unwrap", "C12", "flowjax/wrappers.py"
      "    tree: T\n    _dummy: ClassVar[None] = None\n\n    def unwrap(self) -> T:\n        differentiable, static = eqx.partition(self.tree, eqx.is_array_like)",
      "    tree: T\n    _dummy: ClassVar[None] = None\n\n    def recursive_unwrap(self):\n        return self.unwrap()\n\n"
      "    def unwrap(self) -> T:\n        differentiable, static = eqx.partition(self.tree, eqx.is_array_like)", "C12.recursive")
+
+# ------------------------------------------------------------------------------ Python closure semantics
+fire("c08-chain-late-binding-closures-in-comprehension", ["C08", "C01"], B + "chain.py",
+     "        for bijection in self.bijections:\n            x = bijection.transform(x, condition)\n        return x\n",
+     "        steps = [lambda v: bijection.transform(v, condition) for bijection in self.bijections]\n"
+     "        for step in steps:\n            x = step(x)\n        return x\n")
+fire("c08-chain-late-binding-closures-appended-in-loop", ["C08", "C01"], B + "chain.py",
+     "        for bijection in reversed(self.bijections):\n            y = bijection.inverse(y, condition)\n        return y\n",
+     "        steps = []\n        for bijection in reversed(self.bijections):\n"
+     "            steps.append(lambda v: bijection.inverse(v, condition))\n"
+     "        for step in steps:\n            y = step(y)\n        return y\n")
+silent("c08-benign-chain-early-binding-default-arg", ["C08", "C01", "C03", "C04"], B + "chain.py",
+       "        for bijection in self.bijections:\n            x = bijection.transform(x, condition)\n        return x\n",
+       "        steps = [lambda v, b=bijection: b.transform(v, condition) for bijection in self.bijections]\n"
+       "        for step in steps:\n            x = step(x)\n        return x\n")
